@@ -140,12 +140,52 @@ Definition spec_call (ty : rtype) (rid : bytes) (ls : list N) (a : action) : out
     end
   end.
 
+(* the same for an arbitrary listener loop [nf] *)
+Definition spec_call_g (nf : evrec -> outcome) (ty : rtype) (rid : bytes) (a : action) : outcome :=
+  match invalid_call ty a with
+  | Some q => ([], Some q)
+  | None =>
+    if empty_change a then ([], None) else
+    let pre := match ret_of a with
+               | Some r => [EApply (kind_of a) (apply_args rid a) r]
+               | None => []
+               end in
+    match apply_fails a with
+    | Some e => (pre, Some (PApply e))
+    | None =>
+      if nothing_changed a then (pre, None)
+      else finish pre (finish (publish (subject rid (event_name a)) (payload_of a))
+                              (nf (expected_record rid a)))
+    end
+  end.
+
+(* ---- re-entrant listeners, declaratively ---- *)
+(* what happens during the call of listener l with the event record ev: the listener sees ev,
+   then (if it reacts) the whole inner event call runs *)
+Definition block (inner : action -> outcome) (ev : evrec) (l : lst) : list effect :=
+  EListen (l_id l) ev :: match l_react l with Some a' => fst (inner a') | None => [] end.
+Definition react_panic (inner : action -> outcome) (l : lst) : option panic :=
+  match l_react l with Some a' => snd (inner a') | None => None end.
+(* the listeners that get called: all of them, up to and including the first whose reaction panics *)
+Fixpoint ran (inner : action -> outcome) (ls : list lst) : list lst :=
+  match ls with
+  | [] => []
+  | l :: r => l :: match react_panic inner l with Some _ => [] | None => ran inner r end
+  end.
+Fixpoint first_panic (inner : action -> outcome) (ls : list lst) : option panic :=
+  match ls with
+  | [] => None
+  | l :: r => match react_panic inner l with Some q => Some q | None => first_panic inner r end
+  end.
+Definition no_reaction (ls : list lst) : bool :=
+  forallb (fun l => match l_react l with None => true | Some _ => false end) ls.
+
 Definition no_pub_no_listen (l : list effect) : Prop :=
   forall e, In e l -> match e with EApply _ _ _ => True | _ => False end.
 
 (* ---- a callback, action by action ---- *)
 (* the actions that get to run, each with the replied flag it sees *)
-Fixpoint executed (cx : ctx) (ty : rtype) (rid : bytes) (ls : list N) (replied : bool)
+Fixpoint executed (cx : ctx) (ty : rtype) (rid : bytes) (ls : list lst) (replied : bool)
     (s : list action) : list (action * bool) :=
   match s with
   | [] => []
@@ -154,15 +194,15 @@ Fixpoint executed (cx : ctx) (ty : rtype) (rid : bytes) (ls : list N) (replied :
     (a, replied) :: match p with Some _ => [] | None => executed cx ty rid ls r' s' end
   end.
 (* effects / messages of one action on its own *)
-Definition action_effects (cx : ctx) (ty : rtype) (rid : bytes) (ls : list N) (ar : action * bool)
+Definition action_effects (cx : ctx) (ty : rtype) (rid : bytes) (ls : list lst) (ar : action * bool)
     : list effect := fst (fst (exec_action cx ty rid ls (snd ar) (fst ar))).
-Definition action_msgs (cx : ctx) (ty : rtype) (rid : bytes) (ls : list N) (ar : action * bool)
+Definition action_msgs (cx : ctx) (ty : rtype) (rid : bytes) (ls : list lst) (ar : action * bool)
     : list (bytes * bytes) := pubs (action_effects cx ty rid ls ar).
 (* replied flag and panic at the end of the handler body *)
-Definition final_state (cx : ctx) (ty : rtype) (rid : bytes) (ls : list N) (s : list action)
+Definition final_state (cx : ctx) (ty : rtype) (rid : bytes) (ls : list lst) (s : list action)
     : bool * option panic :=
   let '(_, r, p) := run_script cx ty rid ls false s in (r, p).
-Definition closing_msgs (cx : ctx) (ty : rtype) (rid : bytes) (ls : list N) (s : list action)
+Definition closing_msgs (cx : ctx) (ty : rtype) (rid : bytes) (ls : list lst) (s : list action)
     : list (bytes * bytes) :=
   let (r, p) := final_state cx ty rid ls s in pubs (closing cx r p).
 Definition callback_msgs (cb : callback) : list (bytes * bytes) := pubs (fst (run_cb cb)).
